@@ -6,6 +6,24 @@ import os
 
 ROOT = os.path.dirname(os.path.dirname(os.path.abspath(__file__)))
 NOTES = {
+    "C02-r4-1": "missed at first by C02 (cross-reference streams only used the Up filter; C03 caught it); caught by C02 after xref streams got rows with every PNG filter type under /Predictor 10-15",
+    "C02-r4-2": "missed at first (every object was written 'N G obj' + LF); caught after the fallback documents vary what follows the obj keyword (nothing before a delimiter, space, tab, CR LF)",
+    "C02-r4-3": "missed at first (tools/dumppdf.py -a was not driven, no object had a false-in-Python value); caught after C02 got the dumpallobjs monitor and histories with 0 / 0.0 / [] / () / <> / <<>> / false objects",
+    "C04-r4-3": "missed at first (page selection only through the library API); caught after C04 drives pdf2txt.py and dumppdf.py with -p / --pagenos / --page-numbers / -m",
+    "C08-r4-2": "missed at first; caught after C08 got figure-only containers under all_texts and the 'no bare glyph left in an analysed container' assertion (builder)",
+    "C08-r4-3": "missed at first; caught after C08 got blank-only containers (builder)",
+    "C09-r4-2": "same change as C08-r4-2 (a container without own glyphs never analyses its figures under all_texts): a conservation matter, caught by C08 (structure:glyph_outside_line); C09's workload has own glyphs in every analysed container and is silent",
+    "C10-r4-2": "missed at first; caught after the encrypted cross-reference-stream documents vary the third /W width (0, 1, 2) (builder)",
+    "C12-r4-1": "missed at first; caught after the pool got pages sharing one indirect /Contents array",
+    "C12-r4-2": "missed at first (no LZW-coded stream in the pool; the C03 run on this tree did not finish within its time limit); caught after two LZW documents joined the pool",
+    "C12-r4-3": "missed at first by C12 (C10 caught it); caught by C12 after an RC4 document with a form XObject shared by two pages joined the pool (caching=False histories)",
+    "C13-r4-2": "missed at first (no #xx name escape in the seeds, truncation points sampled with stride 12); caught after the basic seed got /F#202 and cuts that leave a half-read token are always run",
+    "C13-r4-4": "missed at first (xml entry ran without strip_control; the three FontName sites fell between the stride-12 samples); caught after the xml entry sets strip_control=True and name<->string swaps are always run",
+    "C14-r4-2": "missed at first (inputs were at most 64 bytes); caught after C14 got the long-run family (1000-9000 repetitions of one unit at buffer sizes 61, 4096, 65536)",
+    "C15-r4-2": "missed at first; caught after CMAP_PATH values with an empty component joined the C15 workload (builder)",
+    "C15-r4-3": "missed at first (tools/dumppdf.py -E was not driven); caught after C15 got the embedded-file extraction family (builder)",
+    "C16-r4-1": "missed at first by C16 and C12 (single-page programs; no pool document left graphics state behind); caught by C16 (judged page interpreted after an earlier page must equal the same page alone) and by C12 (gstate-carry document)",
+    "C17-r4-2": "missed at first; caught after name and number trees got /Limits whose elements are indirect references (builder)",
     "C07-r3-1": "not a violation of C07 as stated: the change only alters increment-form bfrange entries whose last destination byte would pass 255 (<0001> <0010> <30F8>), for which ISO 32000-1 9.10.3 says 'the result of mapping is undefined' (the last byte shall be <= 255 - (hi - lo)); C07 deliberately generates no such range, so neither a carry nor a wrap-around is asserted",
     "C04-r3-3": "page selection changes the text of a page without Resources (it inherits the maps of the page interpreted before it); PDFPage.resources - what C04 asserts - stays correct, so C04 is silent; caught by C12 (page-at-a-time / subset vs all-pages) after a page-without-resources document joined its pool; same mechanism as C12-r3-2",
     "C12-r3-1": "missed at first (no pool document raised while a form was open); caught after C12 got a document whose form cannot be decoded and a good twin with the form at the same object number",
